@@ -3,6 +3,7 @@ behaviour."""
 
 from __future__ import annotations
 
+import weakref
 from typing import TYPE_CHECKING
 
 import numpy as np
@@ -50,7 +51,9 @@ class Collective:
         max_dist : float
             Maximum distance for collective motions in Angstrom
         """
-        self.jumps = jumps
+        # Only keep a weak reference: `Jumps.collective()` memoises this object, and a
+        # strong reference back to the jumps would keep them alive in that cache forever.
+        self.jumps = weakref.proxy(jumps)
         self.sites = sites
         self.lattice = lattice
         self.max_steps = max_steps
